@@ -16,7 +16,8 @@ structure FHom {F G : Type} (O : Gen.FOps F) (O' : Gen.FOps G) (h : F → G) : P
   neg : ∀ a, h (O.neg a) = O'.neg (h a)
   double : ∀ a, h (O.double a) = O'.double (h a)
   square : ∀ a, h (O.square a) = O'.square (h a)
-  ofNat : ∀ n, h (O.ofNat n) = O'.ofNat n
+  /-- literals of the formulas (all are 64-bit words; `BaseElement::new` is only defined on machine words) -/
+  ofNat : ∀ n, n < 2 ^ 64 → h (O.ofNat n) = O'.ofNat n
 
 structure Ext2Hom {F G : Type} (X : Ext2 F) (X' : Ext2 G) (h : F → G) : Prop where
   mul : ∀ a0 a1 b0 b1, Prod.map h h (X.mul a0 a1 b0 b1) = X'.mul (h a0) (h a1) (h b0) (h b1)
@@ -58,7 +59,7 @@ theorem f128_ext2_hom (H : FHom O O' h) : Ext2Hom (Ext2.f128 O) (Ext2.f128 O') h
   square a0 a1 := by
     simp only [Ext2.f128, Gen.F128.ext2_mul, Gen.F128.ext2_mul.s_z, Prod.map, H.add, H.sub, H.mul]
   mulBase a0 a1 b := by simp only [Ext2.f128, Gen.F128.ext2_mul_base, Prod.map, H.mul]
-  frobenius a0 a1 := by simp only [Ext2.f128, Gen.F128.ext2_frobenius, Prod.map, H.add, H.sub, H.ofNat]
+  frobenius a0 a1 := by simp only [Ext2.f128, Gen.F128.ext2_frobenius, Prod.map, H.add, H.sub, H.ofNat 0 (by decide)]
 
 theorem f64_ext3_hom (H : FHom O O' h) : Ext3Hom (Ext3.f64 O) (Ext3.f64 O') h where
   mul a0 a1 a2 b0 b1 b2 := by
@@ -73,7 +74,10 @@ theorem f64_ext3_hom (H : FHom O O' h) : Ext3Hom (Ext3.f64 O) (Ext3.f64 O') h wh
       Gen.F64.ext3_square.s_a1_a2, Gen.F64.ext3_square.s_out0, Gen.F64.ext3_square.s_out1,
       Gen.F64.ext3_square.s_out2, Prod.map, H.add, H.sub, H.mul, H.double, H.square]
   mulBase a0 a1 a2 b := by simp only [Ext3.f64, Gen.F64.ext3_mul_base, Prod.map, H.mul]
-  frobenius a0 a1 a2 := by simp only [Ext3.f64, Gen.F64.ext3_frobenius, Prod.map, H.add, H.mul, H.ofNat]
+  frobenius a0 a1 a2 := by simp only [Ext3.f64, Gen.F64.ext3_frobenius, Prod.map, H.add, H.mul,
+    H.ofNat 10615703402128488253 (by decide), H.ofNat 6700183068485440220 (by decide),
+    H.ofNat 10050274602728160328 (by decide), H.ofNat 14531223735771536287 (by decide),
+    H.ofNat 11746561000929144102 (by decide), H.ofNat 8396469466686423992 (by decide)]
 
 theorem f62_ext3_hom (H : FHom O O' h) : Ext3Hom (Ext3.f62 O) (Ext3.f62 O') h where
   mul a0 a1 a2 b0 b1 b2 := by
@@ -93,7 +97,10 @@ theorem f62_ext3_hom (H : FHom O O' h) : Ext3Hom (Ext3.f62 O) (Ext3.f62 O') h wh
       Gen.F62.ext3_mul.s_a0b1_a1b0_minus_2a1b2_minus_2a2b1_minus_2a2b2,
       Gen.F62.ext3_mul.s_a0b2_a1b1_a2b0_minus_2a2b2, Prod.map, H.add, H.sub, H.mul, H.double]
   mulBase a0 a1 a2 b := by simp only [Ext3.f62, Gen.F62.ext3_mul_base, Prod.map, H.mul]
-  frobenius a0 a1 a2 := by simp only [Ext3.f62, Gen.F62.ext3_frobenius, Prod.map, H.add, H.mul, H.ofNat]
+  frobenius a0 a1 a2 := by simp only [Ext3.f62, Gen.F62.ext3_frobenius, Prod.map, H.add, H.mul,
+    H.ofNat 2061766055618274781 (by decide), H.ofNat 786836585661389001 (by decide),
+    H.ofNat 2868591307402993000 (by decide), H.ofNat 3336695525575160559 (by decide),
+    H.ofNat 2699230790596717670 (by decide), H.ofNat 1743033688129053336 (by decide)]
 
 end Formulas
 
@@ -130,18 +137,18 @@ theorem Quad.map_mulBase (HX : Ext2Hom X X' h) (a : Quad F) (b : F) :
 theorem Quad.map_conjugate (HX : Ext2Hom X X' h) (a : Quad F) :
     Quad.map h (Quad.conjugate X a) = Quad.conjugate X' (Quad.map h a) := by
   simp only [Quad.conjugate, Quad.map_ofPair, HX.frobenius]; rfl
-theorem Quad.map_add (HB : BHom B B' h) (a b : Quad F) :
+theorem Quad.map_add (HB : FHom B.toFOps B'.toFOps h) (a b : Quad F) :
     Quad.map h (Quad.add B a b) = Quad.add B' (Quad.map h a) (Quad.map h b) := by
-  simp only [Quad.add, Quad.map, HB.ops.add]
-theorem Quad.map_sub (HB : BHom B B' h) (a b : Quad F) :
+  simp only [Quad.add, Quad.map, HB.add]
+theorem Quad.map_sub (HB : FHom B.toFOps B'.toFOps h) (a b : Quad F) :
     Quad.map h (Quad.sub B a b) = Quad.sub B' (Quad.map h a) (Quad.map h b) := by
-  simp only [Quad.sub, Quad.map, HB.ops.sub]
-theorem Quad.map_neg (HB : BHom B B' h) (a : Quad F) :
+  simp only [Quad.sub, Quad.map, HB.sub]
+theorem Quad.map_neg (HB : FHom B.toFOps B'.toFOps h) (a : Quad F) :
     Quad.map h (Quad.neg B a) = Quad.neg B' (Quad.map h a) := by
-  simp only [Quad.neg, Quad.map, HB.ops.neg]
-theorem Quad.map_double (HB : BHom B B' h) (a : Quad F) :
+  simp only [Quad.neg, Quad.map, HB.neg]
+theorem Quad.map_double (HB : FHom B.toFOps B'.toFOps h) (a : Quad F) :
     Quad.map h (Quad.double B a) = Quad.double B' (Quad.map h a) := by
-  simp only [Quad.double, Quad.map, HB.ops.double]
+  simp only [Quad.double, Quad.map, HB.double]
 
 theorem Quad.map_inv (HB : BHom B B' h) (HX : Ext2Hom X X' h) (a : Quad F) :
     Res.map (Quad.map h) (Quad.inv B X a) = Quad.inv B' X' (Quad.map h a) := by
@@ -183,18 +190,18 @@ theorem Cube.map_mulBase (HX : Ext3Hom X X' h) (a : Cube F) (b : F) :
 theorem Cube.map_conjugate (HX : Ext3Hom X X' h) (a : Cube F) :
     Cube.map h (Cube.conjugate X a) = Cube.conjugate X' (Cube.map h a) := by
   simp only [Cube.conjugate, Cube.map_ofTriple, HX.frobenius]; rfl
-theorem Cube.map_add (HB : BHom B B' h) (a b : Cube F) :
+theorem Cube.map_add (HB : FHom B.toFOps B'.toFOps h) (a b : Cube F) :
     Cube.map h (Cube.add B a b) = Cube.add B' (Cube.map h a) (Cube.map h b) := by
-  simp only [Cube.add, Cube.map, HB.ops.add]
-theorem Cube.map_sub (HB : BHom B B' h) (a b : Cube F) :
+  simp only [Cube.add, Cube.map, HB.add]
+theorem Cube.map_sub (HB : FHom B.toFOps B'.toFOps h) (a b : Cube F) :
     Cube.map h (Cube.sub B a b) = Cube.sub B' (Cube.map h a) (Cube.map h b) := by
-  simp only [Cube.sub, Cube.map, HB.ops.sub]
-theorem Cube.map_neg (HB : BHom B B' h) (a : Cube F) :
+  simp only [Cube.sub, Cube.map, HB.sub]
+theorem Cube.map_neg (HB : FHom B.toFOps B'.toFOps h) (a : Cube F) :
     Cube.map h (Cube.neg B a) = Cube.neg B' (Cube.map h a) := by
-  simp only [Cube.neg, Cube.map, HB.ops.neg]
-theorem Cube.map_double (HB : BHom B B' h) (a : Cube F) :
+  simp only [Cube.neg, Cube.map, HB.neg]
+theorem Cube.map_double (HB : FHom B.toFOps B'.toFOps h) (a : Cube F) :
     Cube.map h (Cube.double B a) = Cube.double B' (Cube.map h a) := by
-  simp only [Cube.double, Cube.map, HB.ops.double]
+  simp only [Cube.double, Cube.map, HB.double]
 
 theorem Cube.map_inv (HB : BHom B B' h) (HX : Ext3Hom X X' h) (a : Cube F) :
     Res.map (Cube.map h) (Cube.inv B X a) = Cube.inv B' X' (Cube.map h a) := by
@@ -223,14 +230,21 @@ end ModelCube
 -- ------------------------------------------------------------------------------------------------ raw words
 /-- The content of property C07 used here: on raw words satisfying the representation invariant `ok`, the operations
     of the base-field implementation `I` compute in `ZMod p` through the abstraction `val`. -/
-structure Implements (I : FieldImpl) (p : ℕ) [Fact p.Prime] (ok : ℕ → Prop) (val : ℕ → ZMod p) : Prop where
+structure ImplementsArith (I : FieldImpl) (p : ℕ) [Fact p.Prime] (ok : ℕ → Prop) (val : ℕ → ZMod p) : Prop where
   add : ∀ a b, ok a → ok b → ok (I.add a b) ∧ val (I.add a b) = val a + val b
   sub : ∀ a b, ok a → ok b → ok (I.sub a b) ∧ val (I.sub a b) = val a - val b
   mul : ∀ a b, ok a → ok b → ok (I.mul a b) ∧ val (I.mul a b) = val a * val b
   neg : ∀ a, ok a → ok (I.neg a) ∧ val (I.neg a) = -val a
   double : ∀ a, ok a → ok (I.double a) ∧ val (I.double a) = 2 * val a
-  new : ∀ n, ok (I.new n) ∧ val (I.new n) = (n : ZMod p)
+  /-- machine words have at least 64 bits (the formulas contain 64-bit literals) -/
+  bits : 64 ≤ I.wordBits
+  /-- `BaseElement::new` on a machine word (it is not defined beyond) -/
+  new : ∀ n, n < 2 ^ I.wordBits → ok (I.new n) ∧ val (I.new n) = (n : ZMod p)
   eq : ∀ a b, ok a → ok b → (I.eq a b = true ↔ val a = val b)
+
+/-- … and inversion returns (no hang) the inverse, zero for zero -/
+structure Implements (I : FieldImpl) (p : ℕ) [Fact p.Prime] (ok : ℕ → Prop) (val : ℕ → ZMod p) : Prop
+    extends ImplementsArith I p ok val where
   inv : ∀ a, ok a → ∃ d, I.inv a = .done d ∧ ok d ∧ val d = (val a)⁻¹
 
 section Raw
@@ -238,23 +252,31 @@ variable {I : FieldImpl} {p : ℕ} [Fact p.Prime] {ok : ℕ → Prop} {val : ℕ
 
 open Classical in
 /-- the implementation's operations restricted to the raw words satisfying the invariant -/
-noncomputable def subOps (H : Implements I p ok val) : BOps {x : ℕ // ok x} where
+noncomputable def subOps (H : ImplementsArith I p ok val) : BOps {x : ℕ // ok x} where
   add a b := ⟨I.add a.1 b.1, (H.add a.1 b.1 a.2 b.2).1⟩
   sub a b := ⟨I.sub a.1 b.1, (H.sub a.1 b.1 a.2 b.2).1⟩
   mul a b := ⟨I.mul a.1 b.1, (H.mul a.1 b.1 a.2 b.2).1⟩
   neg a := ⟨I.neg a.1, (H.neg a.1 a.2).1⟩
   double a := ⟨I.double a.1, (H.double a.1 a.2).1⟩
   square a := ⟨I.mul a.1 a.1, (H.mul a.1 a.1 a.2 a.2).1⟩
-  ofNat n := ⟨I.new n, (H.new n).1⟩
-  zero := ⟨I.new 0, (H.new 0).1⟩
-  one := ⟨I.new 1, (H.new 1).1⟩
+  ofNat n := ⟨I.new (n % 2 ^ I.wordBits), (H.new _ (Nat.mod_lt _ (Nat.two_pow_pos _))).1⟩
+  zero := ⟨I.new 0, (H.new 0 (Nat.two_pow_pos _)).1⟩
+  one := ⟨I.new 1, (H.new 1 (Nat.one_lt_two_pow (by have := H.bits; omega))).1⟩
   eq a b := I.eq a.1 b.1
   inv a := match I.inv a.1 with
     | .done d => if hd : ok d then .done ⟨d, hd⟩ else .out
     | .out => .out
 
-theorem subOps_raw (H : Implements I p ok val) : BHom (subOps H) (BOps.ofImpl I) Subtype.val where
-  ops := ⟨fun _ _ => rfl, fun _ _ => rfl, fun _ _ => rfl, fun _ => rfl, fun _ => rfl, fun _ => rfl, fun _ => rfl⟩
+theorem subOps_raw_ops (H : ImplementsArith I p ok val) :
+    FHom (subOps H).toFOps (BOps.ofImpl I).toFOps Subtype.val :=
+  ⟨fun _ _ => rfl, fun _ _ => rfl, fun _ _ => rfl, fun _ => rfl, fun _ => rfl, fun _ => rfl,
+    fun n hn => by
+      show I.new (n % 2 ^ I.wordBits) = I.new n
+      rw [Nat.mod_eq_of_lt (Nat.lt_of_lt_of_le hn (Nat.pow_le_pow_right (by decide) H.bits))]⟩
+
+theorem subOps_raw (H : Implements I p ok val) :
+    BHom (subOps H.toImplementsArith) (BOps.ofImpl I) Subtype.val where
+  ops := subOps_raw_ops H.toImplementsArith
   zero := rfl
   one := rfl
   eq _ _ := rfl
@@ -262,21 +284,27 @@ theorem subOps_raw (H : Implements I p ok val) : BHom (subOps H) (BOps.ofImpl I)
     obtain ⟨d, hd, hok, _⟩ := H.inv a.1 a.2
     simp only [subOps, BOps.ofImpl, hd, hok, dite_true, fuelMap]
 
+theorem subOps_field_ops (H : ImplementsArith I p ok val) :
+    FHom (subOps H).toFOps (ringOps (ZMod p)) (fun a => val a.1) :=
+  ⟨fun a b => (H.add a.1 b.1 a.2 b.2).2, fun a b => (H.sub a.1 b.1 a.2 b.2).2,
+   fun a b => (H.mul a.1 b.1 a.2 b.2).2, fun a => (H.neg a.1 a.2).2, fun a => (H.double a.1 a.2).2,
+   fun a => by
+     show val (I.mul a.1 a.1) = (val a.1) ^ 2
+     rw [(H.mul a.1 a.1 a.2 a.2).2, pow_two],
+   fun n hn => by
+     show val (I.new (n % 2 ^ I.wordBits)) = (n : ZMod p)
+     rw [Nat.mod_eq_of_lt (Nat.lt_of_lt_of_le hn (Nat.pow_le_pow_right (by decide) H.bits))]
+     exact (H.new n (Nat.lt_of_lt_of_le hn (Nat.pow_le_pow_right (by decide) H.bits))).2⟩
+
 theorem subOps_field (H : Implements I p ok val) :
-    BHom (subOps H) (fieldBOps p) (fun a => val a.1) where
-  ops :=
-    ⟨fun a b => (H.add a.1 b.1 a.2 b.2).2, fun a b => (H.sub a.1 b.1 a.2 b.2).2,
-     fun a b => (H.mul a.1 b.1 a.2 b.2).2, fun a => (H.neg a.1 a.2).2, fun a => (H.double a.1 a.2).2,
-     fun a => by
-       show val (I.mul a.1 a.1) = (val a.1) ^ 2
-       rw [(H.mul a.1 a.1 a.2 a.2).2, pow_two],
-     fun n => (H.new n).2⟩
+    BHom (subOps H.toImplementsArith) (fieldBOps p) (fun a => val a.1) where
+  ops := subOps_field_ops H.toImplementsArith
   zero := by
     show val (I.new 0) = 0
-    rw [(H.new 0).2, Nat.cast_zero]
+    rw [(H.new 0 (Nat.two_pow_pos _)).2, Nat.cast_zero]
   one := by
     show val (I.new 1) = 1
-    rw [(H.new 1).2, Nat.cast_one]
+    rw [(H.new 1 (Nat.one_lt_two_pow (by have := H.bits; omega))).2, Nat.cast_one]
   eq a b := by
     show I.eq a.1 b.1 = decide (val a.1 = val b.1)
     have := H.eq a.1 b.1 a.2 b.2
@@ -339,7 +367,7 @@ theorem quad_lift_inv (H : Implements I p ok val) {XS : Ext2 {x : ℕ // ok x}} 
   rw [← e1, ← e2]
   constructor
   · intro y hy
-    cases hr : Quad.inv (subOps H) XS (liftQ a ha) with
+    cases hr : Quad.inv (subOps H.toImplementsArith) XS (liftQ a ha) with
     | ok z => rw [hr] at hy; simp only [Res.map, Res.ok.injEq] at hy; subst hy; exact okQ_map z
     | panic => rw [hr] at hy; simp [Res.map] at hy
     | hang => rw [hr] at hy; simp [Res.map] at hy
@@ -358,7 +386,7 @@ theorem cube_lift_inv (H : Implements I p ok val) {XS : Ext3 {x : ℕ // ok x}} 
   rw [← e1, ← e2]
   constructor
   · intro y hy
-    cases hr : Cube.inv (subOps H) XS (liftC a ha) with
+    cases hr : Cube.inv (subOps H.toImplementsArith) XS (liftC a ha) with
     | ok z => rw [hr] at hy; simp only [Res.map, Res.ok.injEq] at hy; subst hy; exact okC_map z
     | panic => rw [hr] at hy; simp [Res.map] at hy
     | hang => rw [hr] at hy; simp [Res.map] at hy
